@@ -108,30 +108,72 @@ Proof.
   split; [apply redir_monitor_ok; exact Hvb | apply sig_monitor_ok; exact Hs].
 Qed.
 
-(* consequently the monitor accepts the model's predicted observation for a verbatim redirect of
-   an all-ASCII URI (Location = the URI) and for a start at the provider *)
-Theorem serve_holds_model_verbatim c now ep q src :
-  serve c now ep q = ORedirect src Verbatim -> forallb (fun b => b <? 128) src = true ->
-  serve_holds c now ep q 302 (Some (hex_escape_non_ascii src)) None = true.
+(* ---- the monitor on wire requests accepts the model's own predictions ---- *)
+Lemma existsb_in {A} (f : A -> bool) (l : list A) x : In x l -> f x = true -> existsb f l = true.
+Proof. intros Hin Hf. apply existsb_exists. exists x. auto. Qed.
+
+Lemma signed_among_ok c now w u s t :
+  In s (presented w k_sig) -> In t (presented w k_ts) ->
+  valid_signature now u (sig_lookup (w_sigtab w) s) t (c_secret c) = true ->
+  signed_among c now w u = true.
 Proof.
-  intros H Hascii. destruct (serve_monitor_redirect _ _ _ _ _ _ H) as [Hd [_ [Hsig [Hcb Hns]]]].
-  unfold serve_holds. cbn [is_3xx negb]. change (is_3xx 302) with true. cbn [negb].
-  rewrite (hex_escape_ascii src Hascii), Hd. cbn [andb].
-  destruct ep.
-  - congruence.
-  - exact (proj2 (Hsig (or_introl eq_refl))).
-  - exact (proj2 (Hsig (or_intror eq_refl))).
-  - destruct (Hcb eq_refl) as [n ->]. rewrite (hex_escape_ascii src Hascii), str_eqb_refl. apply orb_true_r.
+  intros Hs Ht Hv. unfold signed_among. apply (existsb_in _ _ s Hs). apply (existsb_in _ _ t Ht).
+  apply sig_monitor_ok. exact Hv.
 Qed.
 
-Theorem serve_holds_model_idp c now ep q a loc :
-  serve c now ep q = OIdP a -> serve_holds c now ep q 302 loc (Some a) = true.
+(* verbatim redirect of an all-ASCII URI (Location = the URI) at /sign_out *)
+Theorem serve_holds_wire_sign_out c now w src hw :
+  serve_wire c now EpSignOut w = ORedirect src hw -> forallb (fun b => b <? 128) src = true ->
+  serve_holds c now EpSignOut w 302 (Some (hex_escape_non_ascii src)) None = true.
 Proof.
-  intros H. destruct (serve_monitor_idp _ _ _ _ _ H) as [Ha [b [Hb [Hdb Hs]]]].
-  unfold serve_holds. change (is_3xx 302) with true. cbn [negb]. rewrite Ha, Hb, Hdb, Hs. reflexivity.
+  intros H Hascii.
+  destruct (wire_redirect_reads_form _ _ _ _ _ _ H (or_intror eq_refl)) as [_ [Hv _]].
+  destruct (wire_redirect_presented _ _ _ _ _ _ H (or_intror eq_refl)) as [Hin [s [t [Hs [Ht Hsig]]]]].
+  pose proof (redir_monitor_ok _ _ Hv) as Hd.
+  unfold serve_holds. change (is_3xx 302) with true. cbn [negb].
+  rewrite (hex_escape_ascii src Hascii), Hd. cbn [andb].
+  apply (existsb_in _ _ src Hin).
+  rewrite (hex_escape_ascii src Hascii), str_eqb_refl, Hd, (signed_among_ok c now w src s t Hs Ht Hsig). reflexivity.
+Qed.
+
+(* ... and at /callback *)
+Theorem serve_holds_wire_callback c now w src hw :
+  serve_wire c now EpCallback w = ORedirect src hw -> forallb (fun b => b <? 128) src = true ->
+  serve_holds c now EpCallback w 302 (Some (hex_escape_non_ascii src)) None = true.
+Proof.
+  intros H Hascii. destruct (wire_callback_presented _ _ _ _ _ H) as [_ [Hv [st [n [Hin Hst]]]]].
+  pose proof (redir_monitor_ok _ _ Hv) as Hd.
+  unfold serve_holds. change (is_3xx 302) with true. cbn [negb].
+  rewrite (hex_escape_ascii src Hascii), Hd. cbn [andb].
+  apply (existsb_in _ _ st Hin). rewrite Hst, (hex_escape_ascii src Hascii), str_eqb_refl, Hd. reflexivity.
+Qed.
+
+(* a login started at the provider *)
+Theorem serve_holds_wire_idp c now ep w a loc :
+  serve_wire c now ep w = OIdP a -> serve_holds c now ep w 302 loc (Some a) = true.
+Proof.
+  intros H. destruct (wire_idp_presented _ _ _ _ _ H) as [-> [x [Hin Hx]]]. cbv zeta in Hx.
+  destruct Hx as [Ho [Hv [b [Hb [Hvb Hs]]]]].
+  unfold serve_holds. change (is_3xx 302) with true. cbn [negb andb].
+  apply (existsb_in _ _ x Hin). cbv zeta. rewrite Ho, Hb. cbn [opt_str_eqb0].
+  rewrite str_eqb_refl, (redir_monitor_ok _ _ Hv), (redir_monitor_ok _ _ Hvb), (sig_monitor_ok _ _ _ _ _ Hs). reflexivity.
+Qed.
+
+(* the code redirect: the clauses about the presented URI hold (the Location text itself is
+   covered by AuthGates_proofs.code_location_in_domain and compared by the driver) *)
+Theorem serve_wire_code_clauses c now ep w src :
+  serve_wire c now ep w = ORedirect src WithCode ->
+  ep = EpSignIn /\ In src (presented w k_redirect_uri) /\
+  rfc_in_domain src (c_domains c) = true /\ signed_among c now w src = true.
+Proof.
+  intros H. assert (Hep : ep = EpSignIn) by (exact (proj1 (code_gated _ _ _ _ _ H))). subst ep.
+  destruct (wire_redirect_reads_form _ _ _ _ _ _ H (or_introl eq_refl)) as [_ [Hv _]].
+  destruct (wire_redirect_presented _ _ _ _ _ _ H (or_introl eq_refl)) as [Hin [s [t [Hs [Ht Hsig]]]]].
+  split; [reflexivity|]. split; [exact Hin|]. split; [exact (redir_monitor_ok _ _ Hv)|].
+  exact (signed_among_ok c now w src s t Hs Ht Hsig).
 Qed.
 
 (* a non-redirect answer is always accepted by the monitor *)
-Theorem serve_holds_model_other c now ep q s loc car :
-  is_3xx s = false -> serve_holds c now ep q s loc car = true.
+Theorem serve_holds_model_other c now ep w s loc car :
+  is_3xx s = false -> serve_holds c now ep w s loc car = true.
 Proof. intros H. unfold serve_holds. rewrite H. reflexivity. Qed.
